@@ -328,7 +328,7 @@ fn sender_addr(f: usize, node: u64) -> Address {
     alien_addr(f * 64 + (node & 0x3f) as usize)
 }
 
-fn derive(cfid: u64, epoch: &[u8; 16]) -> Result<([u8; 16], u16), String> {
+pub fn derive(cfid: u64, epoch: &[u8; 16]) -> Result<([u8; 16], u16), String> {
     let crypto = mk_crypto(1);
     let mut ek = CanonAeadKey::new();
     ek.load_from_array(epoch);
